@@ -41,8 +41,9 @@ structure Cfg where
   /-- `maxTimeSkew.Nanoseconds()` -/
   maxSkew : Nat
   /-- does `VerifyRemoteChunk` guard the `Cert == nil` case of an already pending chunk
-  (`fixes/C36-verify-remote-chunk-nil-cert.patch`)? Probed from the running code. -/
-  nilCertGuard : Bool := false
+  (repaired in /repo b8e022c, `fixes/C36-verify-remote-chunk-nil-cert.patch`)? The harness probes
+  it from the running code and tells the driver; the default is the repaired code. -/
+  nilCertGuard : Bool := true
   /-- does `ChunkSignatureRequestVerifier.Verify` compare the message to be signed with the
   justification chunk (`fixes/C37-verify-signed-message-matches-chunk.*.patch`)? Probed. -/
   checksMessage : Bool := false
